@@ -36,6 +36,12 @@ class PathAbort(Exception):
     """the current path is infeasible / cut (assume False)"""
 
 
+class LoopCutEnd(PathAbort):
+    """end of the arbitrary iteration of a loop cut at its invariant (the invariant has been re-established or
+    recorded as an obligation); a unit may catch it with E.attempt(..., allow_cut=True) to state clauses about
+    the state at the end of one iteration"""
+
+
 class Obligation:
     __slots__ = ('label', 'pc', 'claim', 'meta', 'status', 'model', 'solver', 'secs', 'path', 'detail')
 
